@@ -1,6 +1,6 @@
 #!/bin/sh
 # usage: devseed.sh <seed> <ID>...   (dev worktree check against scratch worktree /tmp/seedwt-d)
-wt=/tmp/seedwt-d
+wt=${WT:-/tmp/seedwt-d}
 git -C $wt checkout -q -- . ; git -C $wt clean -fdq; git -C $wt checkout -q --detach main
 git -C $wt apply /verif/seeded/$1/patch.diff || { echo "patch does not apply"; exit 2; }
 s=$1; shift
